@@ -2,6 +2,7 @@
 //   config = <queue params>/<reclaimer>/<elem>[+keep]
 //   elem: I int   P raw pointer   U unique_ptr<Tracked>   T Tracked (non-trivial, movable)
 //   ops:  push<v>  pop (try_pop)  opop (pop() -> optional)  wpush<v> / wpop (weak, vyukov)
+//         sig<f> / wai<f> / wex<t>: harness-level ordering (set flag, wait for flag, wait for thread t's complete exit)
 //   +keep: the queue is destroyed with whatever is still inside (C07); otherwise it is drained first (C04-C06)
 #pragma once
 #include "common.hpp"
@@ -55,10 +56,16 @@ xv::Scenario queue_scenario(const drv::Program& p, bool keep) {
       xv::call("pop");
       std::optional<V> r = A::opop(Qr);
       xv::ret(r.has_value(), r.has_value() ? E::id(*r) : 0);
+    } else if (o.name == "sig") {        // harness-level ordering between client threads (directed scenarios): set flag a
+      xv::sync_set((int)o.a);
+    } else if (o.name == "wai") {        // wait for flag a
+      xv::sync_wait((int)o.a);
+    } else if (o.name == "wex") {        // wait until client thread a has exited completely (its reclaimer state is torn down)
+      xv::wait_exit((int)o.a);
     }
   };
   xv::Scenario s; s.nthreads = (int)p.threads.size(); s.after = p.after;
-  s.setup = [=] { *q = A::create(); A::cfg(); if (E::owned) xv::ev("cfg", "owned"); for (auto& o : p.setup) exec(o); };
+  s.setup = [=] { xv::name_range(g_items, sizeof(Item), 128, 0); *q = A::create(); A::cfg(); if (E::owned) xv::ev("cfg", "owned"); for (auto& o : p.setup) exec(o); };
   s.body = [=](int t) { for (auto& o : p.threads[t]) exec(o); };
   s.finish = [=] {
     if (!keep) {
